@@ -7,7 +7,8 @@ HEAD = r'''//@unit C04.simd
 // or (k < values.len() and values[k] OP threshold) — for EVERY threshold including i64::MIN / i64::MAX and every
 // position (4-lane groups and the scalar tail alike); bits of rows >= values.len() are untouched.
 // Abstractions: R7 wide::i64x4 is an external type with lane-wise contracts (splat, new, cmp_lt / cmp_gt / cmp_eq
-// return all-ones (-1) / 0 per lane — the `wide` documentation; `.into()` -> `.to_array()`, the same conversion) ·
+// return all-ones (-1) / 0 per lane — the `wide` documentation, and checked for all inputs against the real crate by the Kani harness
+// c04_wide_i64x4_lane_contract (kani/re_simd.rs); `.into()` -> `.to_array()`, the same conversion) ·
 // R10s `result: &mut [u64]` rebound to `&mut Vec<u64>` (only indexed and measured) · R18c `v[i] |= x` -> `v.set(i, v[i] | x)` ·
 // The rest of the strategy is under contract too: RelationalEngine::{apply_null_mask, apply_alive_mask} (relational_engine/src/lib.rs)
 // and simd::selected_indices (`trailing_zeros` + `w &= w - 1` loop: the list is exactly the set bits, ascending; vstd's
